@@ -1395,6 +1395,70 @@ impl SegtreeItem<i64> for TcItem {
     }
 }
 
+/// the same item over the unit modifier: "touch the range" (a lazy item whose modifier carries no data, next to the
+/// plain built-in items, whose modifier type is the unit as well)
+impl SegtreeItem<()> for TcItem {
+    fn merge(l: &Self, r: &Self) -> Self {
+        TcItem { sum: l.sum + r.sum, len: l.len + r.len, pend: 0 }
+    }
+    fn modify(&mut self, _m: &()) {
+        self.sum += self.len as u64;
+        self.pend += 1;
+    }
+    fn push(&mut self, l: &mut Self, r: &mut Self) {
+        <TcItem as SegtreeItem<i64>>::push(self, l, r)
+    }
+}
+
+#[derive(Debug, Clone)]
+pub struct TouchUnit;
+
+impl Algebra for TouchUnit {
+    type Item = TcItem;
+    type Mod = ();
+    type Elem = u32;
+    type Obs = (u64, u64);
+    type Pred = NumPred;
+    fn name() -> String {
+        "TouchCount<()>".into()
+    }
+    fn gen_elem(rng: &mut Rng, _nonneg: bool) -> u32 {
+        rng.below(3) as u32
+    }
+    fn gen_mod(_rng: &mut Rng, _nonneg: bool) {}
+    fn leaf(e: &u32) -> TcItem {
+        TcItem { sum: *e as u64, len: 1, pend: 0 }
+    }
+    fn apply(e: &mut u32, _m: &()) {
+        *e += 1;
+    }
+    fn empty() -> (u64, u64) {
+        (0, 0)
+    }
+    fn extend(o: &mut (u64, u64), e: &u32) {
+        o.0 += *e as u64;
+        o.1 += 1;
+    }
+    fn extend_left(o: &mut (u64, u64), e: &u32) {
+        Self::extend(o, e)
+    }
+    fn observe(i: &TcItem) -> (u64, u64) {
+        (i.sum, i.len as u64)
+    }
+    fn pending(i: &TcItem) -> bool {
+        i.pend != 0
+    }
+    fn gen_pred(rng: &mut Rng, shadow: &[u32]) -> NumPred {
+        TouchCount::gen_pred(rng, shadow)
+    }
+    fn eval(p: &NumPred, o: &(u64, u64)) -> bool {
+        eval_num(p, o.0 as i64)
+    }
+    fn obs_len(o: &(u64, u64)) -> Option<usize> {
+        Some(o.1 as usize)
+    }
+}
+
 #[derive(Debug, Clone)]
 pub struct TouchCount;
 
@@ -1474,7 +1538,7 @@ where
         format!("Combinator<{} x {}>", A::name(), B::name())
     }
     fn has_mod() -> bool {
-        A::has_mod()
+        A::has_mod() || B::has_mod()
     }
     fn max_n() -> usize {
         A::max_n().min(B::max_n())
